@@ -127,6 +127,20 @@ Theorem C17_split_concat_changing_oracle : forall k g1 g2 ops1 ops2 ps ps1 ps2, 
   wf (2^k) ps2 /\ concat_view ps2 = fold_left (flat_op (2^k)) (ops1 ++ ops2) (concat_view ps).
 Proof. exact split_concat_changing_oracle. Qed.
 
+(* THE HYPOTHESIS wf (every split file has its recorded, block-aligned size) of the refinement theorems:
+   established by every successful resize from any state, broken by parity_truncate (fix) or by damage, and needed:
+   without it a resize may lay the parity out anew and the statement is false (witness: split 0 cut to 8 of its 16
+   recorded bytes and limited to 8, resize to 16; also harness/py/check_C17.py applies the flat-file oracle under wf) *)
+Theorem C17_chsize_reestablishes_wf : forall k g ps size ps', chsize_data g (2^k) ps size = Ok ps' -> wf (2^k) ps'.
+Proof. exact chsize_reestablishes_wf. Qed.
+Theorem C17_truncate_breaks_wf : exists ps, wf (2^2) ps /\ ~ wf (2^2) (parity_truncate ps).
+Proof. exact truncate_breaks_wf. Qed.
+Theorem C17_split_concat_needs_wf :
+  exists k g ps size ps', chsize_data g (2^k) ps size = Ok ps' /\
+    concat_view ps' <> resize (concat_view ps) size.
+Proof. exact split_concat_needs_wf. Qed.
+Print Assumptions C17_split_concat_needs_wf.
+
 (* one resize: success means ftruncate of the concatenation *)
 Theorem C17_chsize_concat : forall (k : N) (g : nat -> N -> bool) ps size ps',
   wf (2^k) ps -> chsize_data g (2^k) ps size = Ok ps' ->
